@@ -1,4 +1,4 @@
--- GENERATED from /tmp/g7/repo-fix by /verif/extract (gvx) on every run: do not edit
+-- GENERATED from /repo by /verif/extract (gvx) on every run: do not edit
 namespace GV.Gen.GoLite
 
 set_option linter.unusedVariables false
@@ -25,7 +25,7 @@ def calculateMinFee (bodySize : Int) (minFeeA : Int) (minFeeB : Int) : Int × Bo
       else
         (sum, false)
 
-/-- translated from ledger/common/common.go:2247 `cborArrayHeaderSize` -/
+/-- translated from ledger/common/common.go:2209 `cborArrayHeaderSize` -/
 def cborArrayHeaderSize (length : Int) : Int :=
   if decide (length < 24) then
     1
@@ -38,7 +38,7 @@ def cborArrayHeaderSize (length : Int) : Int :=
       else
         5
 
-/-- translated from ledger/common/common.go:2260 `AddInt64Checked` -/
+/-- translated from ledger/common/common.go:2222 `AddInt64Checked` -/
 def addInt64Checked (a : Int) (b : Int) : Int × Bool :=
   let sum : Int := wrapS 64 (a + b)
   if (((decide (b > 0) && decide (sum < a))) || ((decide (b < 0) && decide (sum > a)))) then
